@@ -719,6 +719,19 @@ fn c12(em: &mut Em, rng: &mut Rng, thorough: bool) {
               if m != 3 && safe(|| pre.apply(&mut cur)).is_none() { continue; }
               em.probe(&cur, &mo); if safe(|| mo.apply(&mut cur)).is_none() { continue; }
               for o in g.iter() { em.probe(&cur, o); let oc = o.clone(); if safe(|| oc.apply(&mut cur)).is_none() { break; } } } } } } } }
+    // DECCOLM from every kind of starting width — narrower than, equal to and wider than 132 — with something written at the right
+    // edge, with and without a region / DECOM: set (both spellings), set again, reset, reset again, each step a probe
+    for w in [1u32, 3, 80, 131, 132, 133, 140, 200] { for variant in 0..3 {
+        let r = safe(move || { let mut s = Screen::new(w, 3); s.cursor_position(Some(1), Some(w)); s.draw("e"); s.cursor_position(Some(2), Some(w.saturating_sub(3).max(1))); s.draw("wxyz");
+            if variant >= 1 { s.set_margins(Some(2), Some(3)); } if variant == 2 { s.set_mode(&[6], true); } s.cursor_position(Some(1), Some(w / 2 + 1)); s.dirty.clear(); s });
+        let Some(st) = r else { em.fail("C01", format!("panic while building a {}-column DECCOLM state", w)); continue; };
+        for private in [true, false] {
+            let (on, off) = if private { (Op::Sm(vec![3], true), Op::Rm(vec![3], true)) } else { (Op::Sm(vec![96], false), Op::Rm(vec![96], false)) };
+            let mut cur = fork(&st);
+            for o in [&on, &on, &off, &off, &on, &off] { em.probe(&cur, o); let oc = o.clone(); if safe(|| oc.apply(&mut cur)).is_none() { break; } cur.dirty.clear(); }
+            let mut cur = fork(&st);
+            for o in [&off, &on, &Op::Draw("q".into()), &off] { em.probe(&cur, o); let oc = o.clone(); if safe(|| oc.apply(&mut cur)).is_none() { break; } }
+        } } }
     // the `h`/`l` finals and their private flag as delivered to the listener, also right after sequences that end
     // without a dispatch (CSI ... $ x, CSI aborted by CAN/SUB) or after arbitrary other tokens
     events(em, rng, if thorough { 4000 } else { 500 }, &mut |r| {
@@ -935,8 +948,9 @@ fn safety_family(em: &mut Em, rng: &mut Rng, thorough: bool) {
     // states: reachable ones, and the same with out-of-contract cursor / geometry written through the pub fields
     let mut pool: Vec<Screen> = Vec::new();
     let ex = exotic_states(rng); let n_ex = ex.len();
-    for (k, st) in ex.into_iter().enumerate() { if thorough || k % 3 == (rng.below(3) as usize) || k + 3 >= n_ex { pool.push(st); } }
-    let base: Vec<Screen> = pool.iter().take(if thorough { 24 } else { 8 }).map(fork).collect();
+    let all = thorough || std::env::var("MT_SAFETY_ALL").is_ok();
+    for (k, st) in ex.into_iter().enumerate() { if all || k % 3 == (rng.below(3) as usize) || k + 3 >= n_ex { pool.push(st); } }
+    let base: Vec<Screen> = pool.iter().take(if all { 24 } else { 8 }).map(fork).collect();
     for b in base.iter() {
         for (x, y) in [(u32::MAX, 0u32), (0, u32::MAX), (u32::MAX - 1, u32::MAX - 1), (0x8000_0000, 0x7fff_ffff), (b.columns, b.lines), (b.columns + 1, b.lines + 3)] {
             let mut t = fork(b); t.cursor.x = if x == 0 { t.cursor.x } else { x }; t.cursor.y = if y == 0 { t.cursor.y } else { y }; pool.push(t); }
@@ -961,7 +975,7 @@ fn safety_family(em: &mut Em, rng: &mut Rng, thorough: bool) {
             Op::Resize(Some(0), None), Op::Resize(None, Some(0)), Op::Resize(Some(0), Some(0)), Op::Resize(Some(1), Some(1)), Op::Resize(Some(st.lines.saturating_add(2).min(60)), Some(st.columns.saturating_add(3).min(200))),
             Op::Cud(None), Op::Cuf(None), Op::Cup(None, None), Op::Ed(None), Op::El(None), Op::Ich(None), Op::Il(None), Op::Ech(None), Op::Margins(None, None), Op::Vpa(None)]);
         let _ = far_x;
-        let keep = if thorough { 1 } else { 3 };
+        let keep = if all { 1 } else { 3 };
         for o in ops.iter() { if rng.below(keep) != 0 { continue; } em.safety_probe(st, o); }
     }
 }
@@ -1152,6 +1166,22 @@ fn c01(em: &mut Em, rng: &mut Rng, thorough: bool) {
     //     contract (arguments up to u32::MAX, `as i32` edge values, cursor far outside the grid, zero-sized screens via the pub
     //     fields) and inside it. A panic the model does not predict is an unlisted panic site; inside the contract it is a failure of C01.
     safety_family(em, rng, thorough);
+    // (g) a screen of u32::MAX columns (resize allocates nothing per column): the column arithmetic must saturate. Model-free — the
+    //     model would iterate over four billion columns; nothing here iterates over the width (no display(), no EL 1 / ICH / DCH far from the right edge)
+    if em.next_id() {
+        em.arm("resize(None, Some(u32::MAX)); 430 000 x cursor_forward(9999); draw / EL 1 / ECH / ICH / DCH at the right edge".to_string());
+        let r = safe(|| { let mut s = Screen::new(80, 2); s.resize(None, Some(u32::MAX));
+            for _ in 0..430_000 { s.cursor_forward(Some(9999)); }
+            let x_edge = s.cursor.x;
+            // at the last column: one-iteration loops
+            s.insert_characters(Some(9999)); s.delete_characters(Some(9999)); s.erase_characters(Some(9999));
+            s.draw("\u{4e2d}"); let x_wide = s.cursor.x; s.cursor_forward(Some(9999)); let x_back = s.cursor.x;
+            s.draw("ab"); let x_wrap = s.cursor.x;          // 'a' in the last column, 'b' wraps to the next row
+            s.erase_in_line(Some(1), None); s.erase_characters(Some(9999)); s.cursor_forward(None); s.tab();
+            (x_edge, x_wide, x_back, x_wrap, s.cursor.x, s.columns) });
+        em.bump("big_cases");
+        match r { None => em.fail("C01", "panic: resize(None, Some(u32::MAX)) then 430 000 x cursor_forward(Some(9999)) and editing at the right edge".to_string()),
+            Some((a, b, c, d, e, cols)) => { if a != cols - 1 || b != cols || c != cols - 1 || d != 1 || e > cols { em.fail("C05", format!("cursor columns {} {} {} {} {} on a {}-column screen", a, b, c, d, e, cols)); } } } }
     // (e) 132-column switch through the parser on big geometries (coroutine stack, debug build)
     for &(c, l) in BIG.iter() { if !em.next_id() { continue; } let r = safe(move || { let m = Arc::new(Mutex::new(Screen::new(c, l))); let mut p = Parser::new(m.clone()); p.feed("\u{1b}[?3h".into()); p.feed("x".repeat(300)); p.feed("\u{1b}[?3l\u{1b}[2J\u{1b}#8".into()); p.feed("\u{1b}[?5h\u{1b}[?5l\u{1b}c".into()); let n = m.lock().unwrap().display().len(); n });
         em.bump("big_cases"); if r.is_none() { em.fail("C01", format!("panic: DECCOLM round trip through the parser on {}x{}", c, l)); } }
